@@ -380,6 +380,10 @@ func (p *plugin) stop() error {
 
 // Name returns a string indentication for the plugin.
 func (p *plugin) name() string {
+	// idx and base of an external plugin are set by its registration request,
+	// which can race with the connection getting closed (and logged by name)
+	p.Lock()
+	defer p.Unlock()
 	return p.idx + "-" + p.base
 }
 
@@ -410,8 +414,10 @@ func (p *plugin) RegisterPlugin(ctx context.Context, req *RegisterPluginRequest)
 			p.regC <- fmt.Errorf("plugin %q registered invalid index: %w", req.PluginName, err)
 			return &RegisterPluginResponse{}, fmt.Errorf("invalid plugin index: %w", err)
 		}
+		p.Lock()
 		p.base = req.PluginName
 		p.idx = req.PluginIdx
+		p.Unlock()
 	}
 
 	log.Infof(ctx, "plugin %q registered as %q", p.qualifiedName(), p.name())
